@@ -25,9 +25,9 @@ from vlib import compose
 from vlib.upstream import Resp, parse_getmap
 
 UNIT = 16.0
-_NAME = re.compile(r'^(rgba|rgb|pal|key)(\d+)(?:t(\d+))?$')
+_NAME = re.compile(r'^(rgba|rgb|pal|key|trns)(\d+)(?:t(\d+))?$')
 ALPHAS = {'rgba': [0, 64, 128, 200, 255, 255, 128, 255], 'rgb': [255] * 8, 'pal': [0, 255, 128, 255, 255, 0, 255, 128],
-          'key': [255] * 8}
+          'key': [255] * 8, 'trns': [0, 255, 255, 0, 255, 255, 255, 255]}
 _SPEC = {}
 
 
@@ -67,6 +67,15 @@ def spec(name):
         for i in range(3, 8):
             while all(abs(pal[i][c] - key[c]) <= tol + 8 for c in range(3)):
                 pal[i] = [rng.choice([20, 60, 110, 160, 210, 245]) for _ in range(3)]
+    if kind == 'trns':
+        # an RGB picture with ONE colour declared transparent in the file itself (PNG tRNS chunk): every transparent cell has
+        # that colour, no visible cell has it
+        tk = [rng.choice([3, 9, 251]) for _ in range(3)]
+        for i in range(8):
+            if alphas[i] == 0:
+                pal[i] = list(tk)
+            elif pal[i] == tk:
+                pal[i] = [110, 60, 210]
     s = {'kind': kind, 'seed': seed, 'tol': tol, 'key': key,
          'pal': np.array([p + [a] for p, a in zip(pal, alphas)], dtype=np.uint8),
          'dir': rng.choice(['x', 'y', 'd']), 'sw': UNIT * rng.choice([2, 3, 4, 6]),
@@ -161,6 +170,13 @@ def encode_native(names, u8, transparent, fmt):
         img.putpalette(pal[:, :3].tobytes())
         img.save(b, 'PNG', transparency=bytes(pal[:, 3].tolist()))
         return b.getvalue(), 'image/png', 'P'
+    if kind == 'trns' and transparent:
+        s = spec(names[0])
+        tk = tuple(int(v) for v in s['pal'][[i for i in range(8) if s['pal'][i][3] == 0][0]][:3])
+        rgb = np.ascontiguousarray(u8[..., :3]).copy()
+        rgb[u8[..., 3] == 0] = tk
+        Image.fromarray(rgb, 'RGB').save(b, 'PNG', transparency=tk)
+        return b.getvalue(), 'image/png', 'RGB+tRNS'
     if not transparent or kind in ('rgb', 'key'):
         Image.fromarray(np.ascontiguousarray(u8[..., :3]), 'RGB').save(b, 'PNG', compress_level=1)
         return b.getvalue(), 'image/png', 'RGB'
